@@ -12,7 +12,7 @@ import (
 
 func init() {
 	register(&Rule{ID: "DT10", Min: 5, Run: ruleDT10,
-		Doc: "replayed-fields-survive-compaction: compaction rebuilds the log from the replayed graph, so a field of Task or TaskMeta that replay (replayEvents and what it calls) assigns and that any command, predicate or renderer reads must also be read by compaction (compactEvents and its private helpers) - otherwise the information exists only in the uncompacted history and every decision taken from it (claim order, readiness, what show prints) changes when `compact` runs. Fields nobody outside replay reads are bookkeeping of replay itself and are listed"})
+		Doc: "replayed-fields-survive-compaction: compaction rebuilds the log from the replayed graph, so a field of Task or TaskMeta, or a part of the Graph itself, that replay (replayEvents and what it calls) assigns and that any command, predicate or renderer reads must also be read by compaction (compactEvents and its private helpers) - otherwise the information exists only in the uncompacted history and every decision taken from it (claim order, readiness, what show prints) changes when `compact` runs. Fields nobody outside replay reads are bookkeeping of replay itself and are listed"})
 }
 
 func ruleDT10(c *Ctx) {
@@ -58,8 +58,27 @@ func ruleDT10(c *Ctx) {
 		o := Outermost(fn)
 		eachInstr(fn, func(r instrRef) {
 			switch x := r.In.(type) {
+			case *ssa.MapUpdate:
+				if n, ok := graphFieldOf(x.Map, 0); ok && inReplay[o] {
+					k := key{"ergo.Graph", strings.TrimSuffix(n, "[..]")}
+					if _, seen := stored[k]; !seen {
+						stored[k] = x
+					}
+					plain[k] = true
+				}
 			case *ssa.Store:
 				fa, ok := x.Addr.(*ssa.FieldAddr)
+				if ok && namedTypeName(fa.X.Type()) == "ergo.Graph" && inReplay[o] {
+					// a part of the graph that is more than a map filled event by event (an order slice, a counter)
+					if _, isMake := resolve(x.Val).(*ssa.MakeMap); !isMake {
+						k := key{"ergo.Graph", fieldName(fa.X.Type(), fa.Field)}
+						if _, seen := stored[k]; !seen {
+							stored[k] = x
+						}
+						plain[k] = true
+					}
+					return
+				}
 				if !ok || !tracked(namedTypeName(fa.X.Type())) || !inReplay[o] {
 					return
 				}
@@ -82,8 +101,15 @@ func ruleDT10(c *Ctx) {
 				}
 			case *ssa.UnOp:
 				fa, ok := x.X.(*ssa.FieldAddr)
-				if ok && namedTypeName(fa.X.Type()) == "ergo.Graph" && inCompact[o] {
-					graphReads[fieldName(fa.X.Type(), fa.Field)] = true
+				if ok && namedTypeName(fa.X.Type()) == "ergo.Graph" {
+					gk := key{"ergo.Graph", fieldName(fa.X.Type(), fa.Field)}
+					switch {
+					case inCompact[o]:
+						graphReads[gk.field] = true
+					case inReplay[o]:
+					default:
+						otherReads[gk] = append(otherReads[gk], c.Name(o))
+					}
 				}
 				if !ok || !tracked(namedTypeName(fa.X.Type())) {
 					return
@@ -161,6 +187,9 @@ func ruleDT10(c *Ctx) {
 		pos := c.Pos(stored[k].Pos())
 		readers := uniq(otherReads[k])
 		sort.Strings(readers)
+		if k.typ == "ergo.Graph" && graphReads[k.field] {
+			compactReads[k] = true
+		}
 		switch {
 		case len(readers) == 0:
 			c.ok("ergo.replayEvents", "field "+name, pos, "assigned by replay and read by nobody outside replay/compaction")
